@@ -391,9 +391,15 @@ pub fn oracle_cli_quit(scn: &E3Scn, d: &D3, out: &RunOut, stats: &mut Stats) -> 
 
 pub fn gen_cli(rng: &mut Rng) -> E3Scn {
     let mode = *rng.pick(&["do-nothing", "queue", "restart", "signal"]);
-    let spelling = if (mode == "restart" || mode == "signal") && rng.chance(1, 2) { "short" } else { "long" };
+    let spelling = if (mode == "restart" || mode == "signal") && rng.chance(1, 2) {
+        "short"
+    } else {
+        "long"
+    };
+    // `--on-busy-update=<other mode> --signal X`: the presence of --signal decides (signal mode)
+    let overridden = mode != "signal" && spelling == "long" && rng.chance(1, 8);
     let names = ["HUP", "INT", "QUIT", "TERM", "USR1", "USR2"];
-    let signal = if mode == "signal" && (spelling == "short" || rng.chance(1, 2)) { Some(rng.pick(&names).to_string()) } else { None };
+    let signal = if (mode == "signal" && (spelling == "short" || rng.chance(1, 2))) || overridden { Some(rng.pick(&names).to_string()) } else { None };
     let stop_signal = if rng.chance(1, 3) { Some(rng.pick(&names).to_string()) } else { None };
     let stop_timeout_ms = *rng.pick(&[0u64, 10, 100, 1000]);
     let delay_run_ms = if rng.chance(1, 4) { Some(*rng.pick(&[5u64, 50])) } else { None };
@@ -614,7 +620,10 @@ impl Check for C05 {
         if scn.delay_run_ms.is_some() {
             stats.hit("probe:delay-run");
         }
-        if scn.spelling == "short" {
+        if scn.mode != "signal" && scn.signal.is_some() {
+            stats.hit("probe:mode-overridden-by-signal-option");
+        }
+        if scn.spelling != "long" {
             stats.hit("probe:shorthand-flag");
         }
         oracle_c05(scn, &d, out, stats)
